@@ -1629,3 +1629,63 @@ def r23(R):
                             'path')
     R.require(n >= 3, 'expected three makers of temporary blob files; '
               'found %d' % n)
+
+
+# ------------------------------------------------------------------ C13.R24
+@rule('C13.R24', 'the blob sweep takes a file whose serial EQUALS its '
+      'cut-off (the last transaction committed when the sweep began) for '
+      'what it is, a committed file: only files later than the cut-off are '
+      'set aside as belonging to a commit in progress', props=['C07'],
+      min_instances=1)
+def r24(R):
+    from ..flow import boundary_classes
+    cls = R.prog.cls(BLOBSTORAGE)
+    n = 0
+    for f in cls.methods.values():
+        params = [a.arg for a in f.node.args.args]
+        for nm in params[1:]:
+            # the parameter that receives the cut-off: every caller in the
+            # class passes what lastTransaction() returned
+            cs = boundary_classes(f.node, nm)
+            if not cs or not _receives_last_transaction(cls, f.name,
+                                                        params.index(nm) - 1):
+                continue
+            for k, c in cs:
+                n += 1
+                R.instance('%s: `%s` (%s)' % (f.short, ast.unparse(c), k))
+                # `serial > cutoff` sets aside: equality must NOT be set
+                # aside, i.e. the boundary class is 'included'
+                if k != 'included':
+                    R.violation(
+                        (f.module.relpath, f.qualname,
+                         ' '.join(ast.unparse(c).split()), c.lineno),
+                        'the sweep sets a blob file aside as "newer than '
+                        'the sweep" when its serial EQUALS the last '
+                        'committed transaction: that file is the committed '
+                        'current revision, so it drops out of the list the '
+                        'newest of which is spared, and the newest '
+                        'superseded file is spared instead -- a pack '
+                        'leaves the blob file of a removed revision behind',
+                        key='file at the cut-off set aside')
+    R.require(n >= 1, 'no comparison with the sweep cut-off found in the '
+              'blob wrapper')
+
+
+def _receives_last_transaction(cls, mname, argpos):
+    hit = False
+    for f in cls.methods.values():
+        lt = set()
+        for s in walk_local(f.node):
+            if isinstance(s, ast.Assign) and isinstance(s.value, ast.Call) \
+                    and isinstance(s.value.func, ast.Attribute) and \
+                    s.value.func.attr == 'lastTransaction':
+                lt |= {t.id for t in s.targets if isinstance(t, ast.Name)}
+        for c in walk_local(f.node):
+            if isinstance(c, ast.Call) and isinstance(c.func, ast.Attribute) \
+                    and c.func.attr == mname and len(c.args) > argpos:
+                a = c.args[argpos]
+                if isinstance(a, ast.Name) and a.id in lt:
+                    hit = True
+                else:
+                    return False
+    return hit
